@@ -20,10 +20,14 @@ type Interp struct {
 	names   map[string]int
 	params  map[string]int
 	inited  map[*ssa.Package]bool
+	hpkg    string  // package path of the harness being run (scopes //gosmt:stub)
+	initDepth int
+	builders map[*value]*builderState
 	events  []value // zzsym.Emit trace (interpreter values of type zzsym.Event)
 	notes   []string
 	// statistics
 	instrs   int64
+	initInstrs int64
 	funcs    map[string]int
 	stubs    map[string]int
 	unwind   int
@@ -71,6 +75,9 @@ func (fr *frame) get(key ssa.Value) value {
 }
 
 func (i *Interp) global(g *ssa.Global) *value {
+	if g.Pkg != nil && !i.inited[g.Pkg] && g.Name() != "init$guard" {
+		i.initPkg(g.Pkg)
+	}
 	if r, ok := i.globals[g]; ok {
 		return r
 	}
@@ -385,8 +392,13 @@ func (i *Interp) prepareCall(fr *frame, call *ssa.CallCommon) (fn value, args []
 			return i.ctxMethod(c, call.Method.Name()), nil
 		}
 		if recv.t == errType {
-			msg := recv.v.(structure)[0]
-			return &nativeFn{"Error", func(*Interp, *frame, []value) value { return msg }}, nil
+			st := recv.v.(structure)
+			switch call.Method.Name() {
+			case "Error":
+				return &nativeFn{"Error", func(*Interp, *frame, []value) value { return st[0] }}, nil
+			case "Unwrap":
+				return &nativeFn{"Unwrap", func(*Interp, *frame, []value) value { return st[1] }}, nil
+			}
 		}
 		f := i.prog.LookupMethod(recv.t, call.Method.Pkg(), call.Method.Name())
 		if f == nil {
@@ -428,7 +440,7 @@ func fnKey(fn *ssa.Function) string {
 
 func (i *Interp) callSSA(caller *frame, fn *ssa.Function, args []value, env []value) value {
 	key := fnKey(fn)
-	if st, ok := i.ld.stubs[key]; ok && st != fn && !callerIs(caller, st) {
+	if st, ok := i.ld.stubs[i.hpkg+"|"+key]; ok && st != fn && !callerIs(caller, st) {
 		i.stubs["harness:"+key]++
 		return i.callSSA(caller, st, args, nil)
 	}
@@ -440,10 +452,22 @@ func (i *Interp) callSSA(caller *frame, fn *ssa.Function, args []value, env []va
 		i.stubs[key]++
 		return nil
 	}
+	if fn.Blocks == nil && fn.Pkg != nil {
+		fn.Pkg.Build()
+	}
+	if fn.Blocks == nil {
+		if o := fn.Origin(); o != nil && o.Pkg != nil {
+			o.Pkg.Build()
+		}
+	}
 	if fn.Blocks == nil {
 		fault("no body and no intrinsic for %s", key)
 	}
-	if fn.Pkg != nil && !i.inited[fn.Pkg] && strings.Contains(fn.Pkg.Pkg.Path(), "go-task/task") {
+	if fn.Synthetic == "package initializer" {
+		if caller != nil {
+			return nil // dependencies are initialised lazily, on first use
+		}
+	} else if fn.Pkg != nil {
 		i.initPkg(fn.Pkg)
 	}
 	i.funcs[key]++
@@ -467,9 +491,56 @@ func (i *Interp) callSSA(caller *frame, fn *ssa.Function, args []value, env []va
 	return fr.result
 }
 
+// skipInit lists packages whose initialisers are not run: what they set up is
+// stubbed or harnessed separately.
+var skipInit = map[string]bool{
+	modulePath + "/internal/flags":     true, // pflag registration and parsing of os.Args
+	modulePath + "/internal/templater": true, // template function table (templater is stubbed)
+	modulePath + "/taskfile":           true, // chroma style registration
+	"os":                               true,
+	"runtime":                          true,
+	"syscall":                          true,
+	"time":                             true,
+	"reflect":                          true,
+	"net/http":                         true,
+}
+
+// initPkg runs the package initialiser lazily, the first time a function or a
+// global of the package is used on this path. Instructions of an initialiser
+// that the engine cannot execute leave the zero value behind.
 func (i *Interp) initPkg(p *ssa.Package) {
+	if p == nil || i.inited[p] {
+		return
+	}
 	i.inited[p] = true
-	// Selective package init: handled lazily by knownGlobals in intrinsics.go
+	if skipInit[p.Pkg.Path()] {
+		return
+	}
+	initFn := p.Func("init")
+	if initFn == nil {
+		return
+	}
+	p.Build()
+	if initFn.Blocks == nil {
+		return
+	}
+	i.initDepth++
+	defer func() { i.initDepth-- }()
+	savedInstrs := i.instrs
+	func() {
+		defer func() {
+			if r := recover(); r != nil {
+				switch r.(type) {
+				case engineFault, targetPanic:
+					// tolerated: partially initialised package
+				default:
+					panic(r)
+				}
+			}
+		}()
+		i.callSSA(nil, initFn, nil, nil)
+	}()
+	i.initInstrs += i.instrs - savedInstrs
 }
 
 func (i *Interp) runFrame(fr *frame) {
@@ -487,6 +558,11 @@ func (i *Interp) runFrame(fr *frame) {
 		}
 		if tp.where == "" {
 			tp.where = fr.fn.String()
+			n := 0
+			for c := fr.caller; c != nil && n < 6; c = c.caller {
+				tp.where += " <- " + c.fn.String()
+				n++
+			}
 			r = tp
 		}
 		fr.panicking = true
@@ -524,7 +600,13 @@ func (i *Interp) runFrame(fr *frame) {
 		}
 		jumped := false
 		for _, instr := range block.Instrs[len(phis):] {
-			switch i.visitInstr(fr, instr) {
+			var k continuation
+			if i.initDepth > 0 && fr.fn.Synthetic == "package initializer" {
+				k = i.visitInstrTolerant(fr, instr)
+			} else {
+				k = i.visitInstr(fr, instr)
+			}
+			switch k {
 			case kReturn:
 				return
 			case kNext:
@@ -565,4 +647,35 @@ func (fr *frame) runDefers() {
 	if fr.panicking {
 		panic(fr.panic)
 	}
+}
+
+// visitInstrTolerant executes one instruction of a package initialiser; if the
+// engine cannot execute it the destination keeps the zero value of its type.
+func (i *Interp) visitInstrTolerant(fr *frame, instr ssa.Instruction) (k continuation) {
+	defer func() {
+		if r := recover(); r != nil {
+			switch r.(type) {
+			case engineFault, targetPanic:
+				if v, ok := instr.(ssa.Value); ok {
+					func() {
+						defer func() { recover() }()
+						fr.env[v] = zero(v.Type())
+					}()
+				}
+				k = kNext
+			default:
+				panic(r)
+			}
+		}
+	}()
+	return i.visitInstr(fr, instr)
+}
+
+// method returns the exported method name of t, or nil.
+func (i *Interp) method(t types.Type, name string) *ssa.Function {
+	sel := i.prog.MethodSets.MethodSet(t).Lookup(nil, name)
+	if sel == nil {
+		return nil
+	}
+	return i.prog.MethodValue(sel)
 }
